@@ -185,6 +185,14 @@ func TestC06(t *testing.T) {
 			}
 			fmt.Fprintf(&sb, "From: <sip:a@b>;tag=1\r\nTo: <sip:nobody@unrouted.invalid>\r\nCall-ID: %s\r\nCSeq: 1 OPTIONS\r\nContent-Length: 0\r\n\r\n", id)
 			send([]byte(sb.String()))
+			// (stop and wait every ten datagrams: the listener's socket buffer must not
+			// overflow - the kernel would drop the barrier with the rest)
+			if n%120 == 0 && n%1200 != 0 {
+				if _, err := s.in.settle(send, 0); err != nil {
+					V.Violation(t, "learned-hosts-survive", nil, "%v", err)
+					return
+				}
+			}
 			if n%1200 == 0 {
 				if _, err := s.in.settle(send, 0); err != nil {
 					V.Violation(t, "learned-hosts-survive", nil, "%v", err)
